@@ -27,7 +27,14 @@ def explore(e, fname, n, dom, max_paths=1024, pre=()):
         # a path whose own conditions are contradictory (e.g. the `None` arm of a `partial_cmp` match in real arithmetic)
         # is not a path of the function; dropping it is sound, keeping it would only produce vacuous obligations
         if p.conds and filter_paths:
-            rc, _, _ = e.check(list(pre) + list(p.conds) + list(p.side), cap_ms=3000)
+            # quotient definitions are used in their guarded form (d != 0 -> q*d = n): a path that divides by zero must stay
+            # visible to the "no divisor can vanish" obligation instead of being dropped as contradictory
+            idx = list(getattr(p, "nonzero_side_index", []))
+            guarded = list(p.side)
+            for d_, k_ in zip(p.nonzero, idx):
+                if k_ < len(guarded):
+                    guarded[k_] = z3.Implies(d_ != 0, p.side[k_])
+            rc, _, _ = e.check(list(pre) + list(p.conds) + guarded, cap_ms=3000)
             if rc == z3.unsat:
                 continue
         if p.panic is not None:
@@ -70,3 +77,18 @@ def pdev(c, x):
         r = r + i * ci * pw
         pw = pw * x
     return r
+
+
+def divisor_cases(p):
+    """[(condition, goal)] for "no divisor can vanish": divisor k must be non-zero given only the quotient definitions that
+    precede it (its own definition q*d = n would make d != 0 true by definition whenever n != 0)."""
+    idx = list(getattr(p, "nonzero_side_index", [])) or list(range(len(p.nonzero)))
+    seen, cases = set(), []
+    for d, k in zip(p.nonzero, idx):
+        key = (str(d), k if any(str(d) in str(sd) for sd in p.side[:k]) else -1)
+        if (str(d),) in seen:
+            continue
+        seen.add((str(d),))
+        pre_side = list(p.side[:k])
+        cases.append((z3.And(pre_side) if pre_side else z3.BoolVal(True), d != 0))
+    return cases
